@@ -221,6 +221,23 @@ def oracle(case):
         return f"delete fraction {case['f']!r} of n={n} points: int(f*n) = {d} points are to be deleted, the subsamples lack {d_obs}"
     if not math.isfinite(est) or not all(math.isfinite(t) for t in raw):
         return f"non-finite result on finite data: estimate {est!r}, jackknife samples {raw[:6]} (n={n}, d={d}, N={N})"
+    # the subsample statistics the formula is evaluated on must BE statistics of delete-d subsamples of the data (they are read from
+    # the object, so this is checked against the data): bit-identical to the harness's own sequential draw-delete-apply run, or else -
+    # the way the d points are drawn is not part of the text - each one equal to the statistic of SOME subsample lacking d points
+    # (complete enumeration, when there are at most 20000 of them; no claim otherwise)
+    if len(raw) != N:
+        return f"{len(raw)} subsample statistics for number_samples = {N}"
+    seq, _ = seq_samples(case, data)
+    if [float(t).hex() for t in raw] != [float(t).hex() for t in seq] and math.comb(n, d) <= 20000:
+        import itertools
+        allv = sorted(float(fn_plain(np.delete(data.copy(), list(ix), axis=0), *args, **kwargs)) for ix in itertools.combinations(range(n), d))
+        import bisect
+        for i, t in enumerate(raw):
+            j = bisect.bisect_left(allv, t)
+            near = [allv[m] for m in (j - 1, j) if 0 <= m < len(allv)]
+            if not any(abs(t - v) <= 1e-9 * max(abs(t), abs(v)) + 1e-300 for v in near):
+                return (f"subsample statistic {i} is {t!r}: no subsample of the data lacking d={d} of the n={n} points has this "
+                        f"value of the statistic {case['stat']} (nearest: {near})")
     theta = [Fraction(t) for t in raw]
     mean = sum(theta) / N
     ssq = sum((t - mean) ** 2 for t in theta)
@@ -252,6 +269,37 @@ def oracle(case):
             if float(again).hex() != float(est).hex():
                 return (f"the estimate depends on earlier calls: {est!r} at first, {float(again)!r} after the same object had analysed "
                         f"a data set of {len(other)} points in between (n={n}, d={d}, N={N})")
+    # num_cores left to the default (None: the machine size)
+    try:
+        en = obj.compute_jackknife_estimates(data, fn_plain, None, *args, **kwargs)
+    except Exception as ex:
+        return f"num_cores=None raises {type(ex).__name__}: {ex}"
+    if float(en).hex() != float(est).hex():
+        return f"num_cores=None gives {float(en)!r}, num_cores=1..16 give {est!r} (n={n}, d={d}, N={N})"
+    # the same values as a strided view into a larger array (which must stay untouched as well), as a read-only array, as a
+    # Fortran-ordered array
+    big = np.repeat(data, 2, axis=0)
+    big[1::2] = -12345.0
+    bsnap = big.copy()
+    ro = data.copy()
+    ro.setflags(write=False)
+    for what, arr in (("a strided view data2[::2]", big[::2]), ("a read-only array", ro), ("a Fortran-ordered array", np.asfortranarray(data))):
+        try:
+            ev = obj.compute_jackknife_estimates(arr, fn_plain, 1, *args, **kwargs)
+        except Exception as ex:
+            return f"the same values as {what} raise {type(ex).__name__}: {ex}"
+        if float(ev).hex() != float(est).hex():
+            return f"the same values as {what} give {float(ev)!r} instead of {est!r} (n={n}, d={d}, N={N})"
+    if big.tobytes() != bsnap.tobytes():
+        return "the array the data are a view of was modified"
+    # the statistic given as numpy's own function instead of a Python function
+    if case["stat"] == "mean":
+        try:
+            em = obj.compute_jackknife_estimates(data, np.mean, 1)
+        except Exception as ex:
+            return f"function=np.mean raises {type(ex).__name__}: {ex}"
+        if float(em).hex() != float(est).hex():
+            return f"function=np.mean gives {float(em)!r}, the Python function returning float(np.mean(x)) gives {est!r}"
     # the same values in another admissible array representation (integer / bool dtype)
     if np.all(data == np.round(data)) and case["stat"] in ("mean", "sum", "meansq"):
         for dt in (np.int64, np.int32) + ((np.bool_,) if np.all((data == 0) | (data == 1)) else ()):
